@@ -48,8 +48,8 @@ func init() {
 	})
 	reg(&PropSpec{
 		ID: "C15", Cross: "z3-new", Prefix: "vh_C15_", Repeat: 30,
-		Quick:    Tier{Params: map[string]int{"exts": 1, "extras": 1, "name_len": 1, "sizes": 1, "any_shapes": 2, "vary": 0, "case_twin": 1}},
-		Thorough: Tier{Params: map[string]int{"exts": 1, "extras": 1, "name_len": 1, "sizes": 1, "any_shapes": 2, "vary": 0, "case_twin": 1}},
+		Quick:    Tier{Params: map[string]int{"exts": 1, "extras": 1, "name_len": 1, "sizes": 1, "any_shapes": 2, "vary": 0, "case_twin": 1, "payload_fork": 1}},
+		Thorough: Tier{Params: map[string]int{"exts": 1, "extras": 1, "name_len": 1, "sizes": 1, "any_shapes": 2, "vary": 0, "case_twin": 1, "payload_fork": 1}},
 		Bounds: []string{
 			"a second pointer step (description, type, name, $ref) on the Go value the first step returned, compared with the JSON form",
 			"per kind: the symbolic normal-form document of C01 is decoded; for every keyword of the kind and every symbolic member name (extension, its case twin, unknown keyword) used as a one-token pointer, jsonpointer.GetForToken on the typed value (real JSONLookup + name provider from SSA, M-reflect) is compared with the member of the value's own JSON encoding",
